@@ -61,6 +61,13 @@ type clRunner struct {
 	entered chan int64
 	cl      *connlimit.ConnLimiter
 	handler func() http.Handler
+	nreq    int
+
+	front     *connlimit.ConnLimiter // the entry point: a limiter in front of cl
+	decoy     *connlimit.ConnLimiter
+	decoyGate chan struct{}
+	decoySeen map[int64]bool
+	decoyWG   sync.WaitGroup
 }
 
 func newCLRunner(max int64, lateWrap bool) (*clRunner, error) {
@@ -112,7 +119,45 @@ func newCLRunner(max int64, lateWrap bool) (*clRunner, error) {
 		return nil, err
 	}
 	r.cl = cl
+	// ... which sits behind another limiter of the same kind (one source for everybody, no practical limit), as a
+	// per-tenant limit sits behind a global one: the outer instance never changes what the inner one decides
+	one := utils.ExtractorFunc(func(*http.Request) (string, int64, error) { return "everybody", 1, nil })
+	front, err := connlimit.New(cl, one, 1<<40)
+	if err != nil {
+		return nil, err
+	}
+	r.front = front
+	// a second, unrelated limiter in the same process (limit 1), holding one request of every source that shows up:
+	// instances share nothing
+	r.decoyGate = make(chan struct{})
+	r.decoySeen = map[int64]bool{}
+	decoy, err := connlimit.New(http.HandlerFunc(func(w http.ResponseWriter, req *http.Request) { <-r.decoyGate }), extract, 1)
+	if err != nil {
+		return nil, err
+	}
+	r.decoy = decoy
 	return r, nil
+}
+
+// occupy lets the decoy limiter hold a request of the source (once per source)
+func (r *clRunner) occupy(tok int64) {
+	if tok < 0 || r.decoySeen[tok] {
+		return
+	}
+	r.decoySeen[tok] = true
+	req := httptest.NewRequest(http.MethodGet, "http://example.com/", nil)
+	req.Header.Set("X-Source", srcName(tok))
+	req.Header.Set("X-Amount", "1")
+	r.decoyWG.Add(1)
+	go func() {
+		defer r.decoyWG.Done()
+		r.decoy.ServeHTTP(httptest.NewRecorder(), req)
+	}()
+}
+
+func (r *clRunner) closeDecoy() {
+	close(r.decoyGate)
+	r.decoyWG.Wait()
 }
 
 type relKey struct{}
@@ -120,7 +165,10 @@ type relKey struct{}
 // arrive starts a request and waits until it is either inside the handler or answered.
 func (r *clRunner) arrive(tok, amount int64) (status int64, seen int64, rq *clReq) {
 	rq = &clReq{tok: tok, amount: amount, release: make(chan int, 1), done: make(chan int, 1)}
+	r.occupy(tok)
 	req := httptest.NewRequest(http.MethodGet, "http://example.com/", nil)
+	r.nreq++
+	req = hlib.Vary(req, r.nreq)
 	if tok >= 0 {
 		req.Header.Set("X-Source", srcName(tok))
 	}
@@ -135,7 +183,7 @@ func (r *clRunner) arrive(tok, amount int64) (status int64, seen int64, rq *clRe
 				rq.done <- -1
 			}
 		}()
-		r.cl.ServeHTTP(rec, req)
+		r.front.ServeHTTP(rec, req)
 		rq.done <- rec.Code
 	}()
 	select {
@@ -179,7 +227,7 @@ func (r *clRunner) burst(tok int64, k int) (admitted int64, maxSeen int64, probl
 			for atomic.LoadInt32(&start) == 0 {
 				runtime.Gosched()
 			}
-			r.cl.ServeHTTP(rec, req)
+			r.front.ServeHTTP(rec, req)
 			done <- res{rq, rec.Code}
 		}()
 	}
@@ -328,6 +376,7 @@ func (c *connlimitComp) Run(h *hlib.History) ([]hlib.Mon, bool) {
 	if err != nil {
 		return nil, false
 	}
+	defer r.closeDecoy()
 	var mons []hlib.Mon
 	var inflight []*clReq
 	cur := map[int64]int64{}  // ground truth: amount inside the handler per source
@@ -521,6 +570,7 @@ func (c *connlimitComp) solo(h *hlib.History, tok int64) ([]int64, bool) {
 	if err != nil {
 		return nil, false
 	}
+	defer r.closeDecoy()
 	var inflight []*clReq
 	var out []int64
 	for _, op := range h.Ops {
